@@ -67,9 +67,10 @@ func (r *Rule) serves(prop string) bool {
 }
 
 type RuleCtx struct {
-	p    *Program
-	rule *Rule
-	obs  []Obligation
+	judged map[*ssa.Function]bool // scratch of R15b (functions already judged as producers in this run)
+	p      *Program
+	rule   *Rule
+	obs    []Obligation
 }
 
 func (c *RuleCtx) add(st Status, key, pos, what, detail string, props []string, witness []string) {
